@@ -39,6 +39,11 @@ def run(ctx) -> None:
         ctx.reuse("C16.state-twins", c01.pair_transfer, dev)
     # distribute (one shared implementation) books amounts that do not depend on the device's well numbering
     ctx.reuse("C16.state-twins", c01.pair_distribute, "C01.pair-distribute")
+    # the order of the steps does not depend on the device: rows are ordered by well ID, not by device position
+    from . import c18
+
+    ctx.reuse("C16.order-twins", c18.sorting)
+    ctx.reuse("C16.order-twins", c18.grouping)
 
 
 def override_set(ctx) -> None:
